@@ -691,6 +691,204 @@ def r7_diagnostic_code_does_not_panic(ctx):
     ctx.floor('C09.R7', 'panic sites found in pavexc::diagnostic (positive control)', sum(found.values()) + sum(auto.values()), 8)
 
 
+R8_TOLERATED = {
+    # (function, callee): reason
+    ('traits::implements_trait', 'CrateCollection::get_canonical_path_by_local_type_id'):
+        'a trait whose path cannot be resolved is "not the trait we are looking for": the answer is `false` and the CALLER reports the missing trait implementation',
+    ('traits::is_equivalent', 'CrateCollection::get_canonical_path_by_local_type_id'):
+        'a type whose path cannot be resolved is "not equivalent": the answer is `false` and the caller reports the missing trait implementation',
+    ('traits::is_equivalent', 'CrateCollection::get_canonical_path_by_global_type_id'):
+        'as above',
+}
+
+
+def _err_handling(ctx, b, bb, t, must):
+    """How the Err of the Result produced by call `t` (in block bb of body b) is handled -> (class, loc)
+    P propagated, X unwrapped (a panic, not a silent failure), D reported (every path from the Err edge passes a must-push call),
+    C handed to a combinator (cannot be followed), S swallowed: some path from the Err edge goes on without reporting"""
+    d = t['dest']
+    if d.get('p'):
+        return 'C', b.loc(bb, t)
+    defs = Defs(b)
+    vals = {d['l']}
+    grew = True
+    while grew:
+        grew = False
+        for xb, j, st in b.all_assigns():
+            rv = st['rv']
+            if st['lhs'].get('p') or st['lhs']['l'] in vals or rv['k'] not in ('use', 'ref'):
+                continue
+            q = rv.get('pl') or op_place(rv.get('op'))
+            if q is not None and q['l'] in vals and all(e == '*' for e in q.get('p', [])):
+                vals.add(st['lhs']['l'])
+                grew = True
+    for cb, ct in b.calls():
+        if cb == bb:
+            continue
+        for a in ct['args']:
+            pl = op_place(a)
+            if pl is not None and pl['l'] in vals and not pl.get('p'):
+                name = (callee(ct) or '').split('::')[-1]
+                if callee(ct) == 'core::ops::try_trait::Try::branch':
+                    return 'P', b.loc(cb, ct)
+                if name in ('map_err', 'context', 'with_context', 'into_diagnostic', 'wrap_err') and not ct['dest'].get('p'):
+                    # the Result travels on with a converted error: follow it
+                    sub = dict(t)
+                    sub['dest'] = ct['dest']
+                    return _err_handling(ctx, b, cb, sub, must)
+                if name in ('unwrap', 'expect', 'unwrap_or_else', 'expect_err') and name in ('unwrap', 'expect'):
+                    return 'X', b.loc(cb, ct)
+                return 'C', b.loc(cb, ct)
+    # returned as it is
+    for xb, j, st in b.all_assigns():
+        if st['lhs'] == {'l': 0} and st['rv']['k'] == 'use' and op_place(st['rv']['op']) is not None and op_place(st['rv']['op'])['l'] in vals:
+            return 'P', b.loc(xb, st)
+    if d['l'] == 0:
+        return 'P', b.loc(bb, t)
+    for sb in b.live_blocks():
+        sw = b.term(sb)
+        if not sw or sw['k'] != 'switch' or 'enum' not in sw or strip_generics(sw['enum']) != 'core::result::Result':
+            continue
+        src = sw.get('src') or {}
+        if src.get('l') not in vals or [e for e in src.get('p', []) if e != '*']:
+            continue
+        edges = switch_edges(sw)
+        err_t = [edges['Err']] if 'Err' in edges else [s2 for s2 in b.succ(sb) if s2 != edges.get('Ok')]
+        reporting = set()
+        for cb, ct in b.calls():
+            if callee_resolved(ct) in must or callee(ct) in must:
+                reporting.add(cb)
+        # constructing an Err for the caller counts as propagation
+        for xb, j, st in b.all_assigns():
+            if st['rv']['k'] == 'agg' and st['rv'].get('var') == 'Err' and strip_generics(st['rv'].get('adt', '')) == 'core::result::Result':
+                reporting.add(xb)
+        for cb, ct in b.calls():
+            if (callee(ct) or '').endswith('FromResidual::from_residual'):
+                reporting.add(cb)
+        rets = set(b.return_blocks())
+        # a path that leaves the Err arm without reporting: reaches a return, or re-enters the block of the call (next loop iteration)
+        free = b.reachable(err_t, avoid=reporting)
+        if free & (rets | {bb}):
+            return 'S', b.loc(sb)
+        return 'D', b.loc(sb)
+    return 'C', b.loc(bb, t)
+
+
+def r8_documentation_errors_are_reported(ctx):
+    ctx.rule('C09.R8', 'P1 error discipline at a layer boundary: every call from pavexc into rustdoc_processor that can fail with a real error '
+             '(`Result<_, E>`, E != ()) has its Err propagated (`?` / returned), turned into a panic (unwrap / expect: loud, and audited '
+             'elsewhere) or REPORTED: every path from the Err edge passes a call that pushes a diagnostic on all of its paths before the '
+             'function returns or moves on to the next item. Code further down (`annotations::coordinates`: "a diagnostic has already been '
+             'emitted") carries on after such a failure precisely because the sink is no longer empty and the next gate will stop the run; an '
+             'error that is only logged leaves the sink empty, the gates open, and the first `unwrap` on missing crate data becomes the verdict.')
+    must = must_push(ctx)
+    n, cls = 0, {}
+    for b in ctx.fb.bodies('pavexc'):
+        if b.is_promoted:
+            continue
+        for bb, t in b.calls():
+            c = callee(t) or ''
+            if not c.startswith('rustdoc_processor::'):
+                continue
+            d = t['dest']
+            ty = b.locals[d['l']] if not d.get('p') else ''
+            if not ty.startswith('core::result::Result<') or ty.endswith(', ()>'):
+                continue
+            n += 1
+            k, loc = _err_handling(ctx, b, bb, t, must)
+            fn = b.nroot.replace(PX, '').replace('pavexc::', '')
+            short = '::'.join(c.split('::')[-2:])
+            cls[k] = cls.get(k, 0) + 1
+            tol = R8_TOLERATED.get((fn, short))
+            ok = k in ('P', 'X', 'D') or (tol is not None)
+            what = {'P': 'propagated', 'X': 'unwrapped (panics loudly)', 'D': 'reported: every path from the Err edge pushes a diagnostic',
+                    'C': 'handed to a combinator / pattern the rule cannot follow', 'S': 'SWALLOWED: a path from the Err edge goes on without a diagnostic'}[k]
+            ctx.ob('C09.R8', 'doc-error|%s|%s' % (fn, short), ok, loc, '%s -> %s: %s%s' % (fn, short, what, (' — reviewed: ' + tol) if tol and k in ('C', 'S') else ''))
+    ctx.count('doc_layer_fallible_calls', n)
+    ctx.floor('C09.R8', 'fallible calls into rustdoc_processor', n, 12)
+    ctx.floor('C09.R8', 'positive control: Err edges that are reported through the sink', cls.get('D', 0), 1)
+
+
+def taint_reaches(b, sources, sanitizers, sinks):
+    """flow-insensitive taint over one body: values derived from the results of `sources` (call nodes) through copies, references, calls
+    (result tainted when an argument is; a `&mut` receiver becomes tainted when another argument is) — except through `sanitizers`
+    (call nodes whose result is clean). -> the sink calls (bb, t) that receive a tainted argument."""
+    defs = Defs(b)
+    tainted = set()
+    for bb, t in sources:
+        if not t['dest'].get('p'):
+            tainted.add(t['dest']['l'])
+    san = {id(t) for _, t in sanitizers}
+    changed = True
+    while changed:
+        changed = False
+        for xb, j, st in b.all_assigns():
+            l = st['lhs']['l']
+            if l in tainted:
+                continue
+            ops, pls = rv_operands(st['rv'])
+            reads = [op_place(o)['l'] for o in ops if op_place(o) is not None] + [p['l'] for p in pls]
+            if any(r in tainted for r in reads):
+                tainted.add(l)
+                changed = True
+        for cb, ct in b.calls():
+            if id(ct) in san:
+                continue
+            args = [op_place(a) for a in ct['args']]
+            if not any(a is not None and a['l'] in tainted for a in args):
+                continue
+            d = ct['dest']['l']
+            if d not in tainted:
+                tainted.add(d)
+                changed = True
+            # `x.extend(tainted)`: the receiver is a `&mut` to x
+            a0 = args[0] if args else None
+            if a0 is not None and len(args) > 1 and b.locals[a0['l']].startswith('&mut '):
+                for _, _, node in defs.full.get(a0['l'], []):
+                    rv = node.get('rv')
+                    if rv and rv['k'] == 'ref' and rv['pl']['l'] not in tainted:
+                        tainted.add(rv['pl']['l'])
+                        changed = True
+    out = []
+    for cb, ct in sinks:
+        if any(op_place(a) is not None and op_place(a)['l'] in tainted for a in ct['args'][1:] or ct['args']):
+            out.append((cb, ct))
+    return out
+
+
+def r9_persisted_ids_are_checked_against_the_graph(ctx):
+    ctx.rule('C09.R9', 'P7 taint: `CrateCollection::bootstrap` merges the package ids it was asked for with the ids recorded in the on-disk access log '
+             'of the PREVIOUS run. The log is persisted state the current package graph knows nothing about (`cargo update`, a moved path '
+             'dependency); `RustdocCacheKey::new` unwraps `package_graph.metadata(id)`. So every id that derives from `get_access_log` passes '
+             'the filter that asks the package graph (`filter(|id| package_graph.metadata(id).is_ok())`, or a `retain` doing the same) before it '
+             'reaches `compute_batch`: otherwise the second `pavexc generate` after a lockfile change crashes with no diagnostic.')
+    bodies = [b for b in ctx.fb.bodies('rustdoc_processor') if not b.is_promoted and b.nid == b.nroot and b.nid.endswith('collection::CrateCollection::bootstrap')]
+    if not ctx.need('C09.R9', 'rustdoc_processor CrateCollection::bootstrap', bodies):
+        return
+    b = bodies[0]
+    from ..inline import inlined, closures_of
+    b = inlined(ctx.fb, b, crate='rustdoc_processor')
+    src = [(bb, t) for bb, t in b.calls() if (callee(t) or '').endswith('::get_access_log')]
+    sinks = [(bb, t) for bb, t in b.calls() if (callee(t) or '').endswith('::compute_batch')]
+    if not ctx.need('C09.R9', 'get_access_log call in bootstrap', src) or not ctx.need('C09.R9', 'compute_batch call in bootstrap', sinks):
+        return
+    # a sanitizer: filter / retain whose closure asks the package graph
+    san = []
+    for bb, t in b.calls():
+        if (callee(t) or '').split('::')[-1] not in ('filter', 'retain', 'filter_map'):
+            continue
+        asks = False
+        for cl in ctx.fb.bodies_of_item('rustdoc_processor', b.nroot):
+            if cl.nid != cl.nroot and any((callee(x) or '').endswith('PackageGraph::metadata') for _, x in cl.calls()):
+                if any(cl.nid.split('::')[-1] in (a.get('closure') or '') or True for a in t['args']):
+                    asks = True
+        if asks:
+            san.append((bb, t))
+    hit = taint_reaches(b, src, san, sinks)
+    ctx.ob('C09.R9', 'access-log-ids-filtered', bool(san) and not hit, b.loc(*(hit[0] if hit else sinks[0])),
+           'ids read from the persisted access log reach compute_batch only through the package-graph filter: %s (filters found: %d)' % (bool(san) and not hit, len(san)))
+
+
 def check(ctx):
     r4_nothing_assumes_success_before_the_gate(ctx)
     r1_no_silent_failure(ctx)
@@ -699,3 +897,5 @@ def check(ctx):
     r5_str_slicing(ctx)
     r6_inclusive_spans(ctx)
     r7_diagnostic_code_does_not_panic(ctx)
+    r8_documentation_errors_are_reported(ctx)
+    r9_persisted_ids_are_checked_against_the_graph(ctx)
